@@ -110,6 +110,35 @@ pub fn malformed(_cex: &Value) -> Result<String, String> {
       });
     }
   }
+  // queries against a document: any text, in particular with a multi-byte character at the offset where the DID of an entry
+  // would end, resolves or does not - without a panic
+  {
+    use identity_document::document::CoreDocument;
+    let did = CoreDID::parse("did:example:abc").unwrap();
+    let m = identity_verification::VerificationMethod::new_from_jwk(did.clone(), crate::cred::method_key("did:example:abc", "#k"), Some("#k")).unwrap();
+    let svc = Service::builder(Object::new()).id(did.to_url().join("#s").unwrap()).type_("T").service_endpoint(Url::parse("https://example.com/").unwrap()).build().unwrap();
+    let doc = CoreDocument::builder(Object::new()).id(did).verification_method(m).service(svc).build().unwrap();
+    let mut queries: Vec<String> = vec!["did:example:abc#k".into(), "#k".into(), "k".into(), "".into(), "#".into(), "did:".into(), "did:example:abc".into()];
+    for filler in ["\u{e9}", "\u{20ac}", "\u{1f600}"] {
+      // the filler straddles every byte offset from 0 to the length of the document's DID (15) and beyond
+      for lead in 0..=17usize {
+        let base = "did:example:abc#k";
+        let cut = lead.min(base.len());
+        queries.push(format!("{}{}{}", &base[..cut], filler, &base[cut..]));
+        queries.push(format!("{}{}", &base[..cut], filler));
+        queries.push(format!("{}{}#k", &"did:example:ab"[..cut.min(14)], filler));
+      }
+    }
+    for q in queries {
+      let d2 = doc.clone();
+      probe("resolve_method / resolve_service query", q.as_bytes(), &move |p: &[u8]| {
+        let q2 = String::from_utf8_lossy(p).into_owned();
+        let _ = d2.resolve_method(q2.as_str(), None).is_some();
+        let _ = d2.resolve_method(q2.as_str(), Some(identity_verification::MethodScope::authentication())).is_some();
+        let _ = d2.resolve_service(q2.as_str()).is_some();
+      });
+    }
+  }
   // JOSE
   let k = crate::jws::key("keyA", None);
   for ser in [crate::jws::Ser::Compact, crate::jws::Ser::Flattened, crate::jws::Ser::General] {
